@@ -349,7 +349,7 @@ func ReadFromTTML(i io.Reader) (o *Subtitles, err error) {
 	o.Metadata = ttml.metadata()
 
 	// Loop through styles
-	var parentStyles = make(map[string]*Style)
+	var parentStyles = make(map[string]string) // child style ID -> parent style ID
 	for _, ts := range ttml.Styles {
 		var s = &Style{
 			ID:          ts.ID,
@@ -357,17 +357,17 @@ func ReadFromTTML(i io.Reader) (o *Subtitles, err error) {
 		}
 		o.Styles[s.ID] = s
 		if len(ts.Style) > 0 {
-			parentStyles[ts.Style] = s
+			parentStyles[s.ID] = ts.Style
 		}
 	}
 
 	// Take care of parent styles
-	for id, s := range parentStyles {
-		if _, ok := o.Styles[id]; !ok {
-			err = fmt.Errorf("astisub: Style %s requested by style %s doesn't exist", id, s.ID)
+	for id, parentID := range parentStyles {
+		if _, ok := o.Styles[parentID]; !ok {
+			err = fmt.Errorf("astisub: Style %s requested by style %s doesn't exist", parentID, id)
 			return
 		}
-		s.Style = o.Styles[id]
+		o.Styles[id].Style = o.Styles[parentID]
 	}
 
 	// Loop through regions
